@@ -7,6 +7,28 @@ NOT_APPLICABLE = {
 }
 PENDING_REASON = "check not built yet (static rules for this property are under construction; see DESIGN.md section 4)"
 NOTES = {}
+TECHNIQUE = {
+ "C01": "static analysis: typestate interpreter (dtype x sentinel x base x padding) from format-spec source states to every connectivity sink; role-table cross-check of backward slices; dispatch table comparison",
+ "C02": "static analysis: symbolic shape/slice algebra (size polynomials) over the edge builders; def-use obligations on np.unique/sort/renumbering",
+ "C03": "static analysis: index-space typing of loop variables and stores in the incidence builders; fill-guard dominance",
+ "C04": "static analysis: abstract interpretation (unit/role/range/unit-length facets); path-sensitive def-use (derived-from-stored); belief-contradiction rule (one value, two units)",
+ "C05": "static analysis: exact rational arithmetic on the literal quadrature tables (moment conditions); constant propagation + liveness on the Cartesian path; memo-path rule",
+ "C06": "static analysis: einsum subscript parsing, argument provenance, kind-from-dims and result-dtype rules",
+ "C07": "static analysis: dataflow at the encoders (template writes, fill literal, fill-safe gathers, units), guard/use agreement of topology names per call site, attribute-kind rule",
+ "C08": "static analysis: package-wide effect analysis (module-level writes, in-place writes to stored grid buffers), memo-key completeness, lazy-variable write-once, njit identity comparisons",
+ "C09": "static analysis: index-space provenance of subgrid members, schema-driven routing of index-valued variables, exhaustive sign-abstraction truth table of the latitude scan, prange write rule",
+ "C10": "static analysis: override-signature conformance against the installed xarray's parsed sources; path enumeration of the subclass funnels; return-flow closure of apply_ufunc in xarray",
+ "C11": "static analysis: memo-key completeness, unit dataflow into the sklearn trees, sibling cross-check BallTree/KDTree, truth table of query preparation",
+ "C12": "static analysis: kind-from-dims rule, table cross-checks, def-use provenance tree->query->gather, algebraic form of the IDW weights",
+ "C13": "static analysis: path enumeration with path conditions (per-edge insertion obligations); exact polynomial identity (stationary point of the latitude along the code's own interpolation)",
+ "C14": "static analysis: boolean dominance of appends by membership tests; tolerance bound derived from the property's margin; truth table of the pole choice",
+ "C15": "static analysis: memo keys/side tables, copy-on-return rule, derived index spaces of the NaN filter, sibling call agreement",
+ "C16": "static analysis: index-space dataflow (gathers through edge_node/edge_face), unit dataflow, last-axis reduction, abs-on-return, result dtype, boundary-zero rule",
+ "C17": "static analysis: table cross-check of the ten aggregations, partition-consistent gather, raise-on-unsupported paths, result dtype",
+ "C18": "static analysis: role agreement of call arguments, row bookkeeping algebra, sign-only orientation test, sibling agreement, njit identity comparisons",
+ "C19": "static analysis: alias/ownership abstract interpretation (parameter buffers, internal dataset, cache slots) over all constructors and exports",
+ "C20": "static analysis: exhaustive truth table over the comparison atoms of Grid.__eq__/__ne__ (locals inlined), lossy-comparison rule",
+}
 
 def main():
     props = [json.loads(l) for l in open(os.path.join(HERE, "properties.jsonl"))]
@@ -32,7 +54,7 @@ def main():
                     "design_ref": f"DESIGN.md section 4, {pid}",
                 },
                 "level_note": "Trusted base: CPython ast; hand-written numpy/xarray transfer tables; grid schema derived from uxarray/conventions; format specifications for reader role tables. Unknown idioms yield 'unknown' (silent) for contradiction rules and ANALYSIS-INCOMPLETE (exit 2) for proof rules.",
-                "technique": "static analysis: custom AST/dataflow checker (abstract interpretation over unit/index-space/alias facets, path enumeration, table cross-checks)",
+                "technique": TECHNIQUE.get(pid, "static analysis: custom AST/dataflow checker"),
             })
         else:
             na.append({"property_id": pid, "reason": NOT_APPLICABLE.get(pid, PENDING_REASON)})
@@ -47,7 +69,7 @@ def main():
             "add_only": True,
         },
         "engines": [{"name": "uxsa", "path": "/verif/uxsa", "serves_properties": [c["property_id"] for c in checks],
-                     "kind_free_text": "repository-specific static analyser (stdlib ast): symbol table, call resolution, abstract interpreter with unit/role/index-space/fill/alias facets, structured path enumeration, literal-table arithmetic"}],
+                     "kind_free_text": "repository-specific static analyser (stdlib ast, no execution of uxarray): symbol table, call resolution, abstract interpreter with unit/role/index-space/fill/alias facets, connectivity typestate interpreter, structured path enumeration and truth tables, size-polynomial and exact polynomial algebra, literal-table arithmetic"}],
         "checks": checks,
         "not_applicable": na,
         "notes": "All checks are static (family: static analysis). Exit 0 = every obligation holds or is a listed known finding; exit 1 = VIOLATION not listed in known_findings.jsonl; exit 2 = ANALYSIS-INCOMPLETE/ERROR (anchor vanished / idiom not understood), never a silent pass.",
